@@ -74,9 +74,19 @@ func (fc *FnCtx) stmt(st *State, s ast.Stmt) {
 		}
 		st.defers = append(st.defers, deferred{call: s.Call, guard: st.live})
 	case *ast.GoStmt:
+		// the spawned call is not executed (sequential semantics); anchors `at call f #k` / `after call f #k` written for
+		// the callee fire at the go statement, so ghost code can count the spawn and assertions can constrain its arguments
+		var gargs []Term
 		for _, a := range s.Call.Args {
-			fc.expr(st, a)
+			gargs = append(gargs, fc.expr(st, a))
 		}
+		gtext := calleeText(s.Call)
+		fc.callOrd[gtext]++
+		savedGoArgs := fc.anchorArgs
+		fc.anchorArgs = gargs
+		fc.runAnchors(st, "call", gtext, fc.callOrd[gtext], s.Pos(), nil)
+		fc.runAnchors(st, "aftercall", gtext, fc.callOrd[gtext], s.Pos(), nil)
+		fc.anchorArgs = savedGoArgs
 		fc.note("go statement at %s: spawned goroutine not modelled (sequential semantics)", fc.posStr(s.Pos()))
 	case *ast.EmptyStmt:
 	case *ast.SendStmt:
